@@ -1,6 +1,7 @@
 import WireV.Sets
 import WireV.Emit
 import WireV.Sig
+import WireV.Names
 /-! # WireV.Driver — line protocol of the unit tier (one request per line, one reply per line) -/
 namespace WireV
 
@@ -181,6 +182,30 @@ def runDup (toks : List Nat) : String :=
   | none => "ok"
   | some t => s!"err dup:{t}"
 
+/-- string tokens are written `=text` (so that the empty string is representable) -/
+def unEq (w : String) : String := (w.drop 1).toString
+
+def nameFuel (taken : List String) : Nat := taken.length + 40
+
+def runNames (op : String) (ws : List String) : String :=
+  let out := fun (r : Option String) => match r with | some s => "=" ++ s | none => "fuel-exhausted"
+  match op, ws with
+  | "disamb", name :: taken =>
+    let tk := taken.map unEq
+    out (disambiguate (nameFuel tk) (unEq name) (fun n => tk.contains n))
+  | "export", [s] => "=" ++ exportName (unEq s)
+  | "unexport", [s] => "=" ++ unexportName (unEq s)
+  | "tvn", kind :: a :: b :: dflt :: tr :: taken =>
+    let tk := taken.map unEq
+    let shape := match kind with
+      | "b" => TyShape.basic (unEq a)
+      | "n" => TyShape.named (unEq a) none
+      | "np" => TyShape.named (unEq a) (some (unEq b))
+      | _ => TyShape.other
+    let tf := if tr == "v" then valueVarTransform else unexportName
+    out (typeVariableName (nameFuel tk) shape (unEq dflt) tf (fun n => tk.contains n))
+  | _, _ => "bad-request"
+
 def parseNats (ws : List String) : Option (List Nat) := ws.mapM String.toNat?
 
 def handleLine (line : String) : String :=
@@ -193,6 +218,10 @@ def handleLine (line : String) : String :=
   | "plan" :: rest => match parseNats rest with
     | some ns => runPlanner true ns
     | none => "bad-request nat"
+  | "disamb" :: rest => runNames "disamb" rest
+  | "export" :: rest => runNames "export" rest
+  | "unexport" :: rest => runNames "unexport" rest
+  | "tvn" :: rest => runNames "tvn" rest
   | "sig" :: rest => match parseNats rest with
     | some ns => runSig ns
     | none => "bad-request nat"
